@@ -206,7 +206,7 @@ pub trait ParserListener {
                 } else {
                     None
                 },
-                None,
+                if is_private { Some(true) } else { None },
             ),
             ec if ec == EL => self.erase_in_line(
                 if !params.is_empty() {
@@ -214,7 +214,7 @@ pub trait ParserListener {
                 } else {
                     None
                 },
-                None,
+                if is_private { Some(true) } else { None },
             ),
             ec if ec == IL => self.insert_lines(if !params.is_empty() {
                 Some(params[0])
@@ -229,7 +229,10 @@ pub trait ParserListener {
             ec if ec == DCH => self.delete_characters(params.iter().cloned().next()),
             ec if ec == ECH => self.erase_characters(params.iter().cloned().next()),
             ec if ec == HPR => self.cursor_forward(params.iter().cloned().next()),
-            ec if ec == DA => self.report_device_attributes(params.iter().cloned().next(), None), // TODO handle second parameter
+            ec if ec == DA => self.report_device_attributes(
+                params.iter().cloned().next(),
+                if is_private { Some(true) } else { None },
+            ),
             ec if ec == VPA => self.cursor_to_line(params.iter().cloned().next()),
             ec if ec == VPR => self.cursor_down(params.iter().cloned().next()),
             ec if ec == HVP => {
